@@ -162,6 +162,44 @@ example : regionCoords ⟨⟨1, 0⟩, ⟨2, 2⟩⟩ = [(1, 0), (2, 0), (1, 1), (
 
 /-! ## resize -/
 
+/-- **writing through region iteration**: `for_each_in_region` hands its callable a reference to each cell of the
+    region; assigning through it (a region fill) changes exactly the cells of the region – each becomes the new
+    element, every other cell keeps its own – and neither the size nor the cell count. -/
+theorem C16_region_fill (c : Canvas) (hc : c.WF) (r : Rectangle) (e : Element)
+    (hox : 0 ≤ r.origin.x) (hoy : 0 ≤ r.origin.y) (hrw : r.origin.x + r.size.width ≤ c.size.width)
+    (hrh : r.origin.y + r.size.height ≤ c.size.height) :
+    (c.fill r e).size = c.size ∧ (c.fill r e).WF ∧
+    ∀ x y : Int, 0 ≤ x → x < c.size.width → 0 ≤ y → y < c.size.height →
+      (c.fill r e).get x y = if (x, y) ∈ regionCoords r then e else c.get x y := by
+  unfold Canvas.fill
+  -- generalise over the list of coordinates still to be written; all of them lie inside the canvas
+  have hin : ∀ p ∈ regionCoords r, 0 ≤ p.1 ∧ p.1 < c.size.width ∧ 0 ≤ p.2 ∧ p.2 < c.size.height := by
+    intro p hp
+    have := mem_regionCoords.mp hp
+    omega
+  generalize regionCoords r = ps at hin
+  induction ps generalizing c with
+  | nil => exact ⟨rfl, hc, fun x y _ _ _ _ => by simp⟩
+  | cons p ps ih =>
+    obtain ⟨p1, p2, p3, p4⟩ := hin p (by simp)
+    have hc1 : (c.set p.1 p.2 e).WF ∧ (c.set p.1 p.2 e).size = c.size := (C16_cells 0 0 (by omega) (by omega)).2.2.2.2.2.1 c p.1 p.2 e hc
+    have := ih (c.set p.1 p.2 e) hc1.1 (by rw [hc1.2]; exact hrw) (by rw [hc1.2]; exact hrh)
+      (fun q hq => by rw [hc1.2]; exact hin q (by simp [hq]))
+    obtain ⟨i1, i2, i3⟩ := this
+    simp only [List.foldl_cons]
+    refine ⟨i1.trans hc1.2, i2, ?_⟩
+    intro x y hx0 hx hy0 hy
+    rw [i3 x y hx0 (by rw [hc1.2]; exact hx) hy0 (by rw [hc1.2]; exact hy)]
+    rw [C16_index_independent c hc p.1 p.2 x y e p1 p2 p3 p4 hx0 hx hy0 hy]
+    by_cases hm : (x, y) ∈ ps
+    · simp [hm]
+    · by_cases hp : x = p.1 ∧ y = p.2
+      · have : (x, y) = p := by obtain ⟨a, b⟩ := hp; subst a; subst b; rfl
+        simp [hm, hp, this]
+      · have : ¬ (x, y) = p := by
+          intro h; apply hp; cases h; exact ⟨rfl, rfl⟩
+        simp [hm, hp, this]
+
 /-- after `resize(s)`: the reported size is `s`, the grid has `s.w*s.h` cells, every cell inside
     both the old and the new extent keeps its element, every other cell is a default element -/
 theorem C16_resize (c : Canvas) (_hc : c.WF) (s : Extent) (hw : 0 ≤ s.width) (hh : 0 ≤ s.height) :
